@@ -496,6 +496,16 @@ func runCase(c *core.Case) {
 		}
 		c.Fail("C07/"+kind+"/escape/"+placement, "%s (hostile %s in %s) changed the filesystem outside %s: %v", desc, hc, placement, zone, outside)
 	}
+	// the worker's working directory starts empty and nothing in the harness writes there: an entry is a file
+	// system effect at a relative path, i.e. outside every root (cases of one worker share it, so the entry may stem
+	// from a neighbouring case; the effect is outside the root whichever request caused it)
+	if stray := core.CwdCanary(); len(stray) > 0 {
+		if len(stray) > 5 {
+			stray = stray[:5]
+		}
+		c.Fail("C07/"+kind+"/escape-cwd/"+placement, "entries appeared in the process working directory (a relative path outside every root) around %s: %q", desc, stray)
+	}
+	c.Count("cwd_canary_checks", 1)
 	// links inside the root must not point outside
 	for path, v := range after {
 		if strings.HasPrefix(v, "l:") && inZone(path) && before[path] != v {
